@@ -135,8 +135,8 @@ impl Prop for C13 {
                     spec.conf.levels = 0;
                 }
                 Case::File { spec, v1 }
-            }), tier.pick(320, 10_000)).shrink(200),
-            stage("synth", synth(), tier.pick(40_000, 1_000_000)),
+            }), tier.pick(960, 20_000)).shrink(200),
+            stage("synth", synth(), tier.pick(100_000, 2_000_000)),
             stage("raw", vec(any::<u8>(), 0..64).prop_map(Case::Raw), tier.pick(10_000, 200_000)),
         ]
     }
